@@ -33,7 +33,7 @@ ASSUMPTIONS = [
 ]
 BUDGET = {
     "quick": {"shards": 16, "examples": 250, "wall": 100, "value_examples": 6},
-    "thorough": {"shards": 16, "examples": 12000, "wall": 1200, "value_examples": 150},
+    "thorough": {"shards": 16, "examples": 120000, "wall": 900, "value_examples": 1500},
 }
 
 NEG_TESTS = {
